@@ -96,7 +96,7 @@ def run(tier, work):
                 continue
             deep = allt[ev["id"]] == "DEEP"
             if ev["how"] == "var":
-                out.append({"e": "RT", "orig": json.dumps(ev["orig"], sort_keys=True), "back": json.dumps(ev.get("back", "none"), sort_keys=True), "err": ev["err"], "toodeep": deep, "id": ev["id"]})
+                out.append({"e": "RT", "orig": json.dumps(ev["orig"], sort_keys=True), "back": json.dumps(ev.get("back", "none"), sort_keys=True), "err": ev["err"], "toodeep": deep, "wf": ev.get("wf", 1), "id": ev["id"]})
                 if ev.get("text") and not deep:
                     texts.append(ev["text"])
             elif not deep:
